@@ -138,7 +138,7 @@ def main():
                         approx = s / beta - d / 2
                         got = complex(float(v[0]), float(v[1]))
                         c.evaluations += 1
-                        if abs(got - approx) > 3e-3:
+                        if not (abs(got - approx) <= 3e-3):
                             bad = "G_%d%d(tau=%s) = %s but the Matsubara sum of G(i w_n) gives %s" % (i, j, tau, got, approx)
                 if bad:
                     c.violation("%s beta=%s: %s" % (g["id"], r["beta"], bad), rep, cls="duality")
@@ -152,25 +152,25 @@ def main():
                 # conjugation symmetry on and off the axis
                 for n in range(-3, 3):
                     a, b = val(o["n"], n), val(ot["n"], -n - 1)
-                    if abs(a.conjugate() - b) > 1e-10 * (1 + abs(a)):
+                    if not (abs(a.conjugate() - b) <= 1e-10 * (1 + abs(a))):
                         bad = "conj G_%d%d(i w_%d) = %s but G_%d%d(-i w_%d) = %s" % (i, j, n, a.conjugate(), j, i, n, b)
                 zs = o["z"]
                 zt = ot["z"]
                 for k in (0, 2):
                     a = complex(float(zs[k][1][0]), float(zs[k][1][1]))
                     b = complex(float(zt[k + 1][1][0]), float(zt[k + 1][1][1]))
-                    if abs(a.conjugate() - b) > 1e-10 * (1 + abs(a)):
+                    if not (abs(a.conjugate() - b) <= 1e-10 * (1 + abs(a))):
                         bad = "conj G_%d%d(z) = %s but G_%d%d(conj z) = %s at z = %s" % (i, j, a.conjugate(), j, i, b, zs[k][0])
                 # high-frequency tail
                 for k in (4, 5):
                     z = complex(float(zs[k][0][0]), float(zs[k][0][1]))
                     a = complex(float(zs[k][1][0]), float(zs[k][1][1]))
-                    if abs(z * a - d) > 1e-4:
+                    if not (abs(z * a - d) <= 1e-4):
                         bad = "z G_%d%d(z) = %s at |z| = 1e6, expected %s" % (i, j, z * a, d)
                 t0 = complex(float(o["tau"][0][1][0]), float(o["tau"][0][1][1]))
                 tb = complex(float(o["tau"][-1][1][0]), float(o["tau"][-1][1][1]))
                 droptol = 4 ** M_ * 1e-8 + 1e-10          # residues below 1e-8 are dropped (documented): at most 4^M terms
-                if abs(t0 + tb + d) > droptol:
+                if not (abs(t0 + tb + d) <= droptol):
                     bad = "G_%d%d(0+) + G_%d%d(beta-) = %s, expected %s" % (i, j, i, j, t0 + tb, -d)
                 if i == j:
                     for n in (0, 1, 2, 40):
